@@ -55,6 +55,9 @@ def para(r, depth=0):
             c = PNode("e", "br", [], None, None)
         c.tail = (" " + sentence(r) + " ") if r.random() < 0.7 else None
         p.kids.append(c)
+    if r.random() < 0.06:
+        # a comment inside the text element (without text after it: finding X1 is about that text)
+        p.kids.insert(r.randint(0, len(p.kids)), PNode("c", "", [], r.choice(["todo", "note x", "c"]), None))
     return p
 
 
@@ -75,8 +78,18 @@ def html_edit(r, t):
     for _ in range(r.randint(1, 3)):
         paras = [n for n in t.iter() if n.kind == "e" and n.tag == "p"]
         holders = [n for n in t.iter() if n.kind == "e" and n.tag in ("doc", "div", "section")]
-        op = r.choice(["word", "word", "tailword", "wrap", "unwrap", "dropinline", "addpara", "delpara", "swap", "attr"])
-        if op == "word" and paras:
+        op = r.choice(["word", "word", "tailword", "wrap", "unwrap", "dropinline", "addpara", "delpara", "swap", "attr", "comment"])
+        if op == "comment" and paras:
+            # a comment inside a text element changes, appears or disappears
+            x = r.choice([x for p in paras for x in p.iter() if x.kind == "e" and x.tag != "br"])
+            cs = [c for c in x.kids if c.kind == "c"]
+            if cs and r.random() < 0.5:
+                r.choice(cs).text = r.choice(["changed", "todo 2"])
+            elif cs:
+                x.kids.remove(r.choice(cs))
+            else:
+                x.kids.insert(r.randint(0, len(x.kids)), PNode("c", "", [], r.choice(["new note", "todo"]), None))
+        elif op == "word" and paras:
             n = r.choice([x for p in paras for x in p.iter() if x.kind == "e"])
             n.text = sentence(r) if r.random() < 0.8 else None
         elif op == "tailword" and paras:
